@@ -70,10 +70,10 @@ def runs_for(tier):
             ("toc", c(["toc"], 4, 4, H=6)),
             ("bound", c(["bound"], 3, 4, MaxAux=3)),
             ("when", c(["when"], 3, 4, CKinds={"N", "C"}, Durs={1, 2, 3}, H=6)),
-            ("toggle", c(["toggle"], 3, 3, CKinds={"N", "C"}, Durs={1, 2, 3})),
-            ("toggle long", c(["toggle"], 2, 4, MaxAux=3, H=6)),
+            ("toggle", c(["toggle"], 3, 3, Durs={1, 2, 3})),
+            ("toggle long", c(["toggle"], 2, 4, H=6, CKinds={"N", "C"}, Durs={1, 3})),
             ("faults bound,when", c(["bound", "when"], 2, 3, CKinds={"N", "C", "E"}, AuxTerms={"U", "E"}, Faults=True)),
-            ("faults toggle", c(["toggle"], 2, 3, CKinds={"N", "E"}, AuxTerms={"U", "E"}, Faults=True, MaxAux=2)),
+            ("faults toggle", c(["toggle"], 1, 2, H=4, CKinds={"N", "E"}, AuxTerms={"U", "E"}, Faults=True, MaxAux=2)),
             ("dispose count,time,toc", c(["count", "time", "toc"], 3, 3, H=5, Disposes=True)),
             ("dispose bound,when,toggle", c(["bound", "when", "toggle"], 2, 3, H=5, Disposes=True))]
 
@@ -85,7 +85,7 @@ def sampled_runs(tier):
         return []
     big = dict(Terms={"C", "E", "U"}, CKinds={"N", "C"}, AuxTerms={"U"}, Faults=False, Disposes=True, MaxAux=4, MaxLen=7, CountLen=12, MaxT=9, H=11,
                Counts={1, 2, 3, 4, 5}, Spans={1, 2, 3, 5, 7}, Shifts={1, 2, 3, 4, 6}, Durs={1, 2, 3, 5})
-    return [("sampled " + f, f, dict(big, Ops={f}), 2500) for f in FAMILIES]
+    return [("sampled " + f, f, dict(big, Ops={f}), 1200) for f in FAMILIES]
 
 
 def run(tier):
